@@ -1085,6 +1085,15 @@ class Gen:
                         ed.insert(b["s"], t, o)
                     loops[idx] = (n, "for")
                     self.fired("R41")
+                elif itx["k"] == "MethodCall" and itx["a"]["method"] == "by_ref" and kid(itx, "receiver")["k"] == "Path" \
+                        and kid(itx, "receiver")["a"]["path"] in it.get("iterloops", []):
+                    # R41': `for X in IT.by_ref() { B }` -> `while let Some(X) = IT.next() { B }` (IT stays usable after the loop)
+                    ed.replace(n["s"], p["s"], "while let Some(", ("rule", "R41"))
+                    ed.replace(p["e"], b["s"], f") = {T(kid(itx, 'receiver'))}.next()", ("rule", "R41"))
+                    for t, o in pieces:
+                        ed.insert(b["s"], t, o)
+                    loops[idx] = (n, "for")
+                    self.fired("R41")
                 elif itx["k"] == "Range" or (itx["k"] == "Paren" and kid(itx, "expr")["k"] == "Range"):
                     for t, o in pieces:
                         ed.insert(b["s"], t, o)
